@@ -24,7 +24,8 @@ CLAIMS = {
         engine="E2 layout + genlayout",
         text="Static: every loop / comprehension that contributes to generated C++ text iterates a canonical sorted layout (dict / set / items / values "
              "iteration only in guards, messages or under sorted()); the Python layout lists are sorted by name; every sorted() key is total and "
-             "hash-free; the generator modules keep no module-level mutable state (bytes do not depend on earlier generations); no set/dict repr "
+             "hash-free; the generator modules keep no module-level mutable state -- also not through a local alias of a module-level container "
+             "(bytes do not depend on earlier generations); no set/dict repr "
              "reaches generated text; a built-in synthetic order leak must be reported on every run.",
         note="Trusted base: sympy cse/simplify/ccode are deterministic functions of their (ordered) input; names are distinct strings.",
         ref="3/C15"),
@@ -32,7 +33,8 @@ CLAIMS = {
         technique="def-use resolved structural rules on the adapter's row consumption and call sequence + normal form of the NIS + effect analysis (static)",
         engine="AST rules + E3 matform + E2 event log + E6 effects",
         text="Static: transform compiles the filter from exactly the estimator's parameters, consumes each row as [controls] then per sensor in sorted key "
-             "order that sensor's readings (prefix slices, remainder threaded), predicts once with the fixed step and updates sensors in that order "
+             "order that sensor's readings (prefix slices with the remainder threaded, or a running offset that starts at 0 per row and advances by the "
+             "sensor's size), predicts once with the fixed step and updates sensors in that order "
              "threading (state, covariance), appends y^T.Inv(S).y from the records of the same key, which sensor_model refreshes unconditionally; "
              "mahalanobis is the flattened output guarded against negatives; score is the documented combination; none of them changes a parameter.",
         note="Not decided: numeric non-negativity, scikit-learn's behaviour. Some sub-rules compare normalised statement text of the adapter; an unfamiliar "
@@ -44,7 +46,9 @@ CLAIMS = {
         text="Static: the four parameter tables agree and parameters are stored unmodified (clone contract); set_params applies each key by setattr / a "
              "fresh per-key Config rebuild / raise; the scoring vector's writer and reader enumerate the same ordered segments and the reader consumes "
              "exactly those prefixes, changes only the two noise maps and floors process noise positive; fit raises MinimizationFailure before the "
-             "final set_params, takes the final parameters from the reader, and refuses only None.",
+             "final set_params, takes the final parameters from the reader, refuses only None, and returns with every non-noise parameter holding the "
+             "caller's value (a temporary value it installs is restored before the solution is read); the constructors on the compile path do not "
+             "write into the objects they are given, directly or through a local alias.",
         note="Not decided: finiteness of the optimum, other exceptions escaping fit for some data (needs the optimiser's path).",
         ref="3/C17"),
     "C18": dict(
@@ -53,7 +57,8 @@ CLAIMS = {
         text="Static: the declared graph (state ids, available_transitions, return annotations) is the chain Start -> Symbolic_Model -> Fit_Model; states "
              "are constructed only by their predecessor's declared transition with a fresh history list; search is a FIFO BFS with path extension, goal "
              "test, type guard and exhaustion raise; fitting refuses too-small data before splitting, searches exactly the supplied grid, exports the "
-             "best estimator with its config; ConfigView lets given parameters override defaults; set_params applies every key.",
+             "best estimator with its config; ConfigView lets given parameters override defaults; set_params applies every key; the adapter's fit "
+             "(GridSearchCV's refit) leaves the selected non-noise parameters as selected.",
         note="Not decided: what GridSearchCV selects. Shortest paths follow from BFS + FIFO on the extracted graph.",
         ref="3/C18"),
     "C19": dict(
